@@ -408,8 +408,12 @@ def _problem(rng, T, e, n, kind):
             nr = math.sqrt(sum(a * a for a in cols[c])) or 1.0
             cols[c] = [a / nr for a in cols[c]]
         rows = [[scale * sum(cols[k][i] * sig[k] * Q[k][c] for k in range(e)) for c in range(e)] for i in range(n)]
-    xtrue = [rng.gauss() for _ in range(e)]
-    noise = rng.choice([0.0, 1e-3, 0.1, 1.0])
+    # right-hand sides (hence solutions) over many decades: the minimiser is homogeneous in Y, so a solver that treats a SMALL
+    # right-hand side as zero (seeded change c05b: `if (JtY_.isZero()) return Bc_` — Eigen's isZero() is an absolute 1e-12 / 1e-5
+    # threshold) is wrong for a quarter of these problems and right for none of the others
+    mag = 10.0 ** (-rng.uniform(0.0, 14.0 if T == 'd' else 7.0)) if rng.chance(0.25) else 1.0
+    xtrue = [rng.gauss() * mag for _ in range(e)]
+    noise = rng.choice([0.0, 1e-3, 0.1, 1.0]) * mag
     ys = [sum(r[c] * xtrue[c] for c in range(e)) + noise * scale * rng.gauss() for r in rows]
     return [[_rnd(T, v) for v in r] for r in rows], [_rnd(T, y) for y in ys]
 
